@@ -45,7 +45,7 @@ def single_sessions(dss, n):
             if (k + j) % 3 == 0:
                 o["raw"] = 1
             out.append({"D": D, "naming": NAMINGS[(k + j) % len(NAMINGS)], "ops": [o], "ne": n + 1,
-                        "log_construct": 1 if j == 0 else 0})
+                        "log_construct": 1 if j == 0 else 0, "entry": (k + j) % 7})
     return out
 
 
